@@ -92,18 +92,19 @@ Fixpoint pmodel (lims : list (Z * Z * bool * nat)) (st : pstate) (ops : list xpo
       let '(period, quota, align, pfx) := lim_of lims lim in
       let k := kid pfx key in
       let (st', out) := pstep st (PTake k quota w (negb down)) in
-      window_ok align period w exp &&
-      (* the script ran (the caller of a cut take may have seen its answer or the context error) ... *)
-      ((match out with
-        | Some (_, res) => res_eqb res code err || (cut && res_eqb (Err 1%nat) code err)
-        | None => false
-        end &&
-        ent_eqb (fst st') (rget (fst st') k (snd st')) ent &&
-        pmodel lims st' r) ||
-       (* ... or the cancelled call was torn down before the server ran it: nothing happened *)
-       (cut && res_eqb (Err 1%nat) code err &&
-        ent_eqb (fst st) (rget (fst st) k (snd st)) ent &&
-        pmodel lims st r))
+      (* (if-then-else, not || / &&: vm_compute is call-by-value and must not explore both branches) *)
+      if negb (window_ok align period w exp) then false
+      else if (* the script ran (the caller of a cut take may have seen its answer or the context error) ... *)
+              match out with
+              | Some (_, res) => res_eqb res code err || (cut && res_eqb (Err 1%nat) code err)
+              | None => false
+              end &&
+              ent_eqb (fst st') (rget (fst st') k (snd st')) ent
+      then pmodel lims st' r
+      else if (* ... or the cancelled call was torn down before the server ran it: nothing happened *)
+              cut && res_eqb (Err 1%nat) code err && ent_eqb (fst st) (rget (fst st) k (snd st)) ent
+      then pmodel lims st r
+      else false
   | XPConc lim key g w counts errs ent exp :: r =>
       let '(period, quota, align, pfx) := lim_of lims lim in
       let k := kid pfx key in
@@ -138,11 +139,12 @@ Fixpoint pspec (lims : list (Z * Z * bool * nat)) (t : Z) (ws : windows) (ops : 
       else
         let wl := if align then w else period in
         let (ws', c) := wtake t (kid pfx key) quota wl ws in
-        (1 <=? wl) && (wl <=? period) &&
-        (((err =? 0) && (code =? c) && pspec lims t ws' r) ||
-         (* the caller gave up: no admission; its take counts if the server still ran it, else not *)
-         (cut && negb (err =? 0) && negb (code =? S_Allowed) && negb (code =? S_HitQuota) &&
-          (pspec lims t ws' r || pspec lims t ws r)))
+        if negb ((1 <=? wl) && (wl <=? period)) then false
+        else if (err =? 0) && (code =? c) then pspec lims t ws' r
+        else if cut && negb (err =? 0) && negb (code =? S_Allowed) && negb (code =? S_HitQuota) then
+          (* the caller gave up: no admission; its take counts if the server still ran it, else not *)
+          (if pspec lims t ws' r then true else pspec lims t ws r)
+        else false
   | XPConc lim key g w counts errs ent exp :: r =>
       let '(period, quota, align, pfx) := lim_of lims lim in
       if period <? 1 then true
